@@ -273,6 +273,10 @@ class Typer(object):
         self.decls = []             # (name, declaring statement start (line, col))
         self.stmts = []             # (line, col, endcol) of every statement-like node
         self.lists = []             # per StatementListNode: [(line, col)] of its children, in source order
+        self.owners = []            # per StatementListNode: None (the body) or (role, (line, col) of the owning
+                                    # statement / clause): role in if elif else while for
+        self.extent = {}            # (line, col) of a statement -> (start offset, end offset) in the text
+        self._owner = None
         self.params = []            # per invocation: [(line, col, endcol) of each parameter's expression]
         self.evdata = set()         # indices into self.params that are event data lists
         self.chains = []            # per select-related: ((line, col) of the statement, [(kl, rel, phrase)])
@@ -378,6 +382,14 @@ class Typer(object):
             else:
                 c = self.class_of_type(hty)
                 kl = c[1] if c else None
+            if kl is None:
+                for sn, members in G.SPEC['structs']:       # a member of a structured value
+                    if G.core_type(hty) == sn:
+                        for mn, mt in members:
+                            if mn == b[2]:
+                                return 'member', mt
+                if b[2] == 'length':
+                    return 'array-length', 'integer'
             try:
                 return 'attribute', G.attr_type(kl, b[2])
             except KeyError:
@@ -453,6 +465,7 @@ class Typer(object):
     def stmt_list(self, sl):
         starts = []
         self.lists.append(starts)
+        self.owners.append(self._owner)
         for st in sl[1:]:
             pos, _ = _unwrap(st)
             starts.append(self.at(pos)[:2])
@@ -471,6 +484,7 @@ class Typer(object):
         pos, b = _unwrap(x)
         head = str(b[0])
         self.stmts.append(self.at(pos))
+        self.extent[self.at(pos)[:2]] = (pos[0], pos[3])
         outer = self.cur_stmt
         self.cur_stmt = self.at(pos)[:2]
         if head == 'AssignmentNode':
@@ -506,22 +520,27 @@ class Typer(object):
         elif head == 'ForEachNode':
             info = self.lookup(b[2])
             self.target(b[1], 'int', info[1] if info else None)
+            self._owner = ('for', self.at(pos)[:2])
             self.block(b[3])
         elif head == 'WhileNode':
             self.expr(b[1])
+            self._owner = ('while', self.at(pos)[:2])
             self.block(b[2])
         elif head == 'IfNode':
             self.expr(b[1])
+            self._owner = ('if', self.at(pos)[:2])
             self.block(b[2])
             _, el = _unwrap(b[3])
             for e in el[1:]:
                 epos, eb = _unwrap(e)
                 self.stmts.append(self.at(epos))
                 self.expr(eb[1])
+                self._owner = ('elif', self.at(epos)[:2])
                 self.block(eb[2])
             if b[4] != 'none':
                 spos, sb = _unwrap(b[4])
                 self.stmts.append(self.at(spos))
+                self._owner = ('else', self.at(spos)[:2])
                 self.block(sb[1])
         elif head == 'InvocationStatementNode':
             self.expr(b[1])
@@ -735,6 +754,39 @@ def run_impl(case):
                          % (i, p[0], p[1], len(starts), _where(ids, starts, prev), _where(ids, starts, exp)))
                 row.append(ids.index(prev) if prev in ids else (Sym('none') if not prev else Sym('other')))
             stmt_obs.append(row)
+        # block structure, from the TEXT: the statements of one statement list are held (R602) by ONE block, different
+        # lists by different blocks, the block of a nested list is the one its owning statement / clause relates to
+        # (R607 if, R658 elif, R606 else, R608 while, R605 for each), and there is one ACT_BLK per list
+        owner_rel = {'if': ('ACT_IF', 607), 'elif': ('ACT_EL', 658), 'else': ('ACT_E', 606), 'while': ('ACT_WHL', 608),
+                     'for': ('ACT_FOR', 605)}
+        seen_blocks = []
+        for starts, owner in zip(ty.lists, ty.owners):
+            held = []
+            for p in starts:
+                b_ = one(by_pos[p]).ACT_BLK[602]()
+                if not any(b_ is x for x in held):
+                    held.append(b_)
+            if len(held) > 1:
+                fail('block-structure', 'the %d statements of one statement list (first at line %d) are held by %d different '
+                     'blocks' % (len(starts), starts[0][0], len(held)))
+            blk = held[0] if held else None
+            if owner is not None:
+                role, opos = owner
+                sub = getattr(one(by_pos[opos]), owner_rel[role][0])[603]() if opos in by_pos else None
+                oblk = one(sub).ACT_BLK[owner_rel[role][1]]() if sub is not None else None
+                if oblk is None:
+                    fail('block-structure', 'the %s at line %d column %d has no block' % (role, opos[0], opos[1]))
+                elif blk is not None and oblk is not blk:
+                    fail('block-structure', 'the statements nested in the %s at line %d column %d are not held by the block '
+                         'that %s relates to' % (role, opos[0], opos[1], role))
+                blk = oblk if oblk is not None else blk
+            if blk is not None:
+                if any(blk is x for x in seen_blocks):
+                    fail('block-structure', 'two statement lists of the source share one ACT_BLK')
+                seen_blocks.append(blk)
+        nblk = len(list(m.select_many('ACT_BLK')))
+        if nblk != len(ty.lists):
+            fail('block-structure', '%d ACT_BLK instances for %d statement lists of the source' % (nblk, len(ty.lists)))
         # elif / else clauses are ACT_SMT instances too, held by no statement list: they have no previous statement
         # and no statement designates them
         listed = set(p for starts in ty.lists for p in starts)
@@ -814,9 +866,8 @@ def run_impl(case):
         spans = []          # (start offset, end offset, (line, col)) of statements held by statement lists
         for starts in ty.lists:
             for p in starts:
-                s = by_pos[p]
-                a = line_off[p[0] - 1] + p[1] - 1
-                spans.append((a, a + len(s.Label), p))
+                a, b_ = ty.extent[p]            # the statement's extent in the TEXT (not the stored Label)
+                spans.append((a, b_, p))
         declared = dict()
         for name, at in ty.decls:
             declared.setdefault(name, []).append(at)
@@ -883,6 +934,8 @@ def model_line(case):
         return '(c06-schema)'
     if case.get('multi'):
         return None
+    if (case.get('gstats') or {}).get('struct_members'):
+        return None         # structure members are outside the Lean typing model (direct predicate only)
     tree = _rig.parse(text_of(case))
     return dumps([Sym('c06'), G.ctx_sexp(case['home']), oal_sexp.encode(tree),
                   [[k, v] for k, v in sorted(G.event_meanings().items())]])
